@@ -111,7 +111,7 @@ Definition on_open (c : conn) (asn id hold : N) (caps : list cap) : conn * list 
                  c_expected_asn := c_expected_asn c; c_remote_asn := asn; c_remote_id := id;
                  c_remote_hold := hold; c_remote_cap := caps; c_neg_hold := neg; c_ka := ka |} in
     (c', [Send MKeepalive; Negotiated (c_local_cap c) caps]
-         ++ (if neg =? 0 then [] else [SetKa ka; SetHold neg])
+         ++ (if neg =? 0 then (if c_local_hold c =? 0 then [] else [SetHold 0]) else [SetKa ka; SetHold neg])
          ++ [StateChanged OpenConfirm]).
 
 Definition on_keepalive (c : conn) : conn * list output :=
